@@ -510,6 +510,32 @@ def main(tier, replay=None):
     finally:
         shutil.rmtree(base, ignore_errors=True)
 
+    # "literal or computed values of every type": the value forms of Constraint.tla are a literal, a let-bound name, a
+    # sum and a copy - all of them typed by the static checker.  A value whose type the checker cannot see (the result of
+    # an identity function, an element of a mixed list) reaches only the run-time check: fixed programs, same verdicts
+    pdir = C.scratch_dir("c06p")
+    hq = C.Harness(hp)
+    try:
+        for k, (text, conforms) in enumerate((
+                ('let f = func (x) => x;\nlet y :: 0 = f(3);\n', True),
+                ('let f = func (x) => x;\nlet y :: 0 = f("a");\n', False),
+                ('let l = [1, "s"];\nlet y :: 0 = l.0;\n', True),
+                ('let l = [1, "s"];\nlet y :: 0 = l.1;\n', False),
+                ('let f = func (x) => x;\nlet y :: in 1..10 = f(11);\n', False),
+                ('let f = func (x) => x;\nlet y :: "a" | in 1..3 = f("a");\n', True))):
+            fpath = os.path.join(pdir, "p%d.ucg" % k)
+            with open(fpath, "w") as fh:
+                fh.write(text)
+            r = hq.req({"op": "build", "path": fpath, "fresh": True, "strict": True})
+            got = None if "crash" in r else (r["out"]["k"] == "ok")
+            if got is None or got != conforms:
+                rep.disagree({"leg": "computed-values", "text": text, "conforms": conforms, "builds": got,
+                              "message": str(r.get("out", r))[:300]},
+                             key="exemplar-not-checked-when-the-checker-cannot-type-the-value" if (got and not conforms)
+                             else "computed-value-verdict")
+    finally:
+        hq.close()
+        shutil.rmtree(pdir, ignore_errors=True)
     if keys:
         C.log("[c06] disagreements by key: %s" % json.dumps(keys, sort_keys=True))
     code = rep.finish()
